@@ -103,6 +103,8 @@ func genC18(c *Ctx) error {
 		w.Peer.AddChannel(chName, cc)
 		ch := w.Peer.Channels[chName]
 		robots := map[string]*Identity{w.Robot.SKI: w.Robot, w.Client.SKI: w.Client}
+		// organisational units that merely contain "admin" are not the admin unit; the comparison ignores case
+		nearAdmins := []*Identity{NewECIdentity("a1", "administrators"), NewECIdentity("a2", "sysadmin"), NewECIdentity("a3", "non-admin"), NewECIdentity("a4", "Admin")}
 		var steps []string
 		var jsteps []interface{}
 		accepted, rejected := 0, 0
@@ -111,10 +113,12 @@ func genC18(c *Ctx) error {
 				b     []byte
 				admin bool
 				name  string
-			}{{w.Admin.Creator, true, "adminOU"}, {w.Client.Creator, false, "user"}, {[]byte{9, 9}, false, "garbage"}}
+			}{{w.Admin.Creator, true, "adminOU"}, {w.Client.Creator, false, "user"}, {[]byte{9, 9}, false, "garbage"},
+				{nearAdmins[0].Creator, false, "OU=administrators"}, {nearAdmins[1].Creator, false, "OU=sysadmin"}, {nearAdmins[2].Creator, false, "OU=non-admin"},
+				{nearAdmins[3].Creator, true, "OU=Admin"}}
 			cr := creators[0]
-			if rng.Intn(5) == 0 {
-				cr = creators[1+rng.Intn(2)]
+			if rng.Intn(4) == 0 {
+				cr = creators[1+rng.Intn(len(creators)-1)]
 			}
 			var args []string
 			var argTerm string
